@@ -394,8 +394,39 @@ def run_entry_point(cls, tag, schema, inst, fc, ep, store, wdocs):
 # ---------------------------------------------------------------------------------------------
 # C04 entry points agree
 
+def c04_nonmapping(ctx):
+    """module-level validate() without a class on schemas that are not mappings: check_schema of the
+    class validator_for falls back to would raise SchemaError, so validate() must raise SchemaError"""
+    res = ctx.res
+    for schema in [5, None, 1.5, "abc", [1, 2], ["$schema"], {"$schema": 5}, {"$schema": ["x"]}]:
+        case = {"schema": schema, "inst": 1, "cls": None}
+        res.note(khash(case), True, None)
+        try:
+            with warnings.catch_warnings():
+                warnings.simplefilter("ignore")
+                V.validate(1, schema)
+            got = "ok"
+        except E.SchemaError:
+            got = "SchemaError"
+        except E.ValidationError:
+            got = "ValidationError"
+        except Exception as exc:       # noqa: BLE001
+            got = type(exc).__name__
+        try:
+            V._LATEST_VERSION.check_schema(schema)
+            want = "ok"
+        except E.SchemaError:
+            want = "SchemaError"
+        except Exception as exc:       # noqa: BLE001
+            want = type(exc).__name__
+        if want == "SchemaError" and got not in ("SchemaError",):
+            res.fail("module-validate:non-mapping-schema:%s" % got,
+                     "validate(1, %r) raised %s although check_schema of the default class raises SchemaError" % (schema, got), case)
+
+
 def c04(ctx):
     res = ctx.res
+    c04_nonmapping(ctx)
     for _ in range(ctx.n(1500)):
         tag, schema, store, wdocs, info = gen_case(ctx, refs=ctx.r.random() < 0.2, malformed=0.25)
         cls = impl.DRAFTS[tag]
@@ -689,7 +720,7 @@ def first_kw_diff(a, b):
 
 def c06(ctx):
     res = ctx.res
-    for _ in range(ctx.n(2000)):
+    for _ in range(ctx.n(4500)):
         tag, schema, store, wdocs, info = gen_case(ctx, refs=ctx.r.random() < 0.3, depth=ctx.r.choice([2, 2, 3]))
         cls = impl.DRAFTS[tag]
         try:
@@ -1101,9 +1132,22 @@ def insert_foreign(ctx, tag, schema):
     consulted = {"properties", "patternProperties", "items", "then", "else", "exclusiveMinimum", "exclusiveMaximum",
                  "required", "$ref", "id", "$id", "$schema"}
     n = 0
+    idk = "id" if tag in ("d3", "d4") else "$id"
+    other_idk = "$id" if tag in ("d3", "d4") else "id"
     for _ in range(ctx.r.choice([1, 1, 2, 3])):
         spot = ctx.r.choice(spots)
         name = ctx.r.choice(names)
+        k = ctx.r.random()
+        if "$ref" in spot and k < 0.5 and idk not in spot:
+            # ANY keyword next to a reference is ignored: the draft's own id keyword included
+            spot[idk] = ctx.r.choice(["http://ex.org/decoy/", "a/", "b/", "http://other.org/", "x"])
+            n += 1
+            continue
+        if k > 0.8 and other_idk not in spot:
+            # the other drafts' spelling of the id keyword is inert: it must not move the base of references below
+            spot[other_idk] = ctx.r.choice(["http://ex.org/decoy/", "a/", "b/", "http://ex.org/b/", "http://other.org/"])
+            n += 1
+            continue
         if name in spot or name in consulted or name in gen.VOCAB[tag] or name in ("then", "else") and tag == "d7":
             continue
         if name in ("definitions", "$defs"):
@@ -1119,8 +1163,18 @@ def insert_foreign(ctx, tag, schema):
 
 def c10(ctx):
     res = ctx.res
+    import chan_ref
     for _ in range(ctx.n(2500)):
-        tag, schema, store, wdocs, info = gen_case(ctx, refs=ctx.r.random() < 0.25, depth=ctx.r.choice([1, 2, 3]))
+        if ctx.r.random() < 0.25:
+            # bundles with relative references under nested ids and decoy documents at wrongly joined URIs
+            tag = ctx.r.choice(DRAFT_TAGS)
+            schema, store, wdocs, info, _base = chan_ref.bundle(ctx, tag)
+            for u in list(store) + list(wdocs):
+                # decoys for an id keyword that wrongly takes effect
+                for wrong in ("http://ex.org/decoy/", "http://ex.org/b/", "http://other.org/"):
+                    store.setdefault(wrong + u.rsplit("/", 1)[-1], {"not": {}} if tag != "d3" else {"disallow": "any"})
+        else:
+            tag, schema, store, wdocs, info = gen_case(ctx, refs=ctx.r.random() < 0.25, depth=ctx.r.choice([1, 2, 3]))
         cls = impl.DRAFTS[tag]
         if not isinstance(schema, dict):
             continue
@@ -1449,7 +1503,7 @@ def id_of_err(e):
 
 def c17(ctx):
     res = ctx.res
-    for _ in range(ctx.n(1200)):
+    for _ in range(ctx.n(4000)):
         tag, schema, store, wdocs, info = gen_case(ctx, refs=False, depth=ctx.r.choice([2, 3]))
         cls = impl.DRAFTS[tag]
         try:
